@@ -1,5 +1,5 @@
 (* C15 -- non-vacuity and concrete instances. *)
-From Coq Require Import ZArith List Bool Lia.
+From Coq Require Import ZArith List Bool Lia Sorted.
 From Verif.C15 Require Import Model Spec Proofs.
 Import ListNotations.
 Open Scope Z_scope.
@@ -96,3 +96,12 @@ Example ex_kron_partial :
   kron_partial [[[0; 2; 0]; [3; 0; 1]; [0; 7; 0]]; [[2; 9; 0; 0]; [0; 2; 9; 0]; [0; 0; 2; 9]]] [4] true
   = Some [((0, 1), 6); ((0, 2), 27); ((0, 9), 2); ((0, 10), 9)].
 Proof. vm_compute. reflexivity. Qed.
+
+(* the hypotheses of sparsity_ij_spec hold for the supports of a knot vector with a repeated knot *)
+Definition ex_kv : list Z := [0; 0; 0; 1; 2; 2; 3; 4; 4; 4].
+Example ex_supports_sorted :
+  StronglySorted Z.le (map fst (supports ex_kv 2)) /\ StronglySorted Z.le (map snd (supports ex_kv 2))
+  /\ Forall nonempty_supp (supports ex_kv 2).
+Proof.
+  vm_compute. repeat split; repeat constructor; discriminate.
+Qed.
